@@ -459,14 +459,16 @@ class TrimWhitespaces(FullAstVisitor):
             if self.config.sort_files:
                 self.sort_arguments(node.args)
 
-            if len(node.args.arguments) == 1 and not node.args.kwargs:
+            while len(node.args.arguments) == 1 and not node.args.kwargs:
                 arg = node.args.arguments[0]
-                if isinstance(arg, mparser.ArrayNode):
-                    # files([...]) -> files(...), unless that would drop a comment
-                    # or a line continuation attached to the brackets
-                    dropped = [arg.lbracket, arg.rbracket, arg, node.args, *node.args.commas]
-                    if not any(n.whitespaces and n.whitespaces.value.strip() for n in dropped):
-                        node.args = arg.args
+                if not isinstance(arg, mparser.ArrayNode):
+                    break
+                # files([...]) -> files(...), unless that would drop a comment
+                # or a line continuation attached to the brackets
+                dropped = [arg.lbracket, arg.rbracket, arg, node.args, *node.args.commas]
+                if any(n.whitespaces and n.whitespaces.value.strip() for n in dropped):
+                    break
+                node.args = arg.args
 
         super().visit_FunctionNode(node)
         self.move_whitespaces(node.rpar, node)
